@@ -1,0 +1,5 @@
+//go:build !verif
+
+package plenc
+
+func verifYield(string) {}
